@@ -147,7 +147,7 @@ cases = st.fixed_dictionaries({"steps": st.lists(step, min_size=1, max_size=12)}
 
 
 def jobs(tier, seed):
-    n, shards = (1600, 8) if tier == "quick" else (24000, 16)
+    n, shards = (1600, 8) if tier == "quick" else (96000, 16)
     return [{"name": f"hyp-{i}", "kind": "hyp", "seed": seed * 1000 + i, "n": n // shards} for i in range(shards)]
 
 
